@@ -118,7 +118,10 @@ func verifKVRun(tag string, db DB, under DB, nOps int) {
 		b = db.Bucket(name)
 		vapi.Assert(tag+".bucket", b != nil)
 		ki := vapi.Int("key", 0, 1)
-		switch vapi.Int("op", 0, 3) {
+		switch vapi.Int("op", 0, 4) {
+		case 4: // creating the bucket again is refused and changes nothing
+			_, err := db.CreateBucket(name)
+			vapi.Assert(tag+".duplicate-create-refused", err != nil)
 		case 0: // put
 			v := vapi.U8("val")
 			empty := vapi.Bool("empty-value")
@@ -193,7 +196,7 @@ func verifKVRun(tag string, db DB, under DB, nOps int) {
 // VerifH_C17_mem: MemDB against the reference model, every sequence of 4
 // operations over two arbitrary distinct keys and arbitrary values.
 //
-//verif:harness prop=C17 tier=quick require=done bounds="1 bucket, 2 distinct arbitrary 1-byte keys, arbitrary values of 0 or 1 byte, every sequence of 4 ops from {put,delete,flush,cancel}, Get+Iter compared after every op"
+//verif:harness prop=C17 tier=quick require=done bounds="1 bucket, 2 distinct arbitrary 1-byte keys, arbitrary values of 0 or 1 byte, every sequence of 4 ops from {put,delete,flush,cancel,create-bucket-again}, Get+Iter compared after every op"
 func VerifH_C17_mem() {
 	verifKVRun("mem", NewMemDB(), nil, 4)
 }
